@@ -282,6 +282,34 @@ def _iff(a, b):
     return a == b
 
 
+def h_option_per_account(ctx):
+    """the auto-trust option belongs to one account's stack: two stacks in one process (built from one builder, from two builders, or
+    directly) -- switching it on for one leaves the other one refusing changed identities (its layers read the option through their stack)"""
+    from yowsup.stacks.yowstack import YowStack, YowStackBuilder
+    import yowsup.layers as L
+    from yowsup.layers.axolotl.props import PROP_IDENTITY_AUTOTRUST
+
+    class Probe(L.YowLayer):
+        pass
+    how = ctx.choice("stacks_built_by", ["one builder", "two builders", "YowStack directly", "one builder, props given"])
+    if how == "one builder":
+        b = YowStackBuilder().push(Probe)
+        s1, s2 = b.build(), b.build()
+    elif how == "two builders":
+        s1, s2 = YowStackBuilder().push(Probe).build(), YowStackBuilder().push(Probe).build()
+    elif how == "YowStack directly":
+        s1, s2 = YowStack((Probe,)), YowStack((Probe,))
+    else:
+        b = YowStackBuilder().push(Probe)
+        b.setProp("some.option", 1)
+        s1, s2 = b.build(), b.build()
+    first = ctx.choice("switched_on_for", ["first", "second"])
+    on, other = (s1, s2) if first == "first" else (s2, s1)
+    on.setProp(PROP_IDENTITY_AUTOTRUST, True)
+    return [("the account that switched auto-trust on has it", on.getLayer(0).getProp(PROP_IDENTITY_AUTOTRUST, False) is True),
+            ("the other account still refuses changed identities (its layers read no auto-trust option)", other.getLayer(0).getProp(PROP_IDENTITY_AUTOTRUST, False) is False)]
+
+
 def h_trust_decision(ctx):
     """the trust decision as a function of what is pinned: two contacts with unconstrained ids (different) and unconstrained 32-byte keys are
     pinned (the account's own key is in the same table); an unconstrained key presented for the first contact is trusted exactly if it IS that
@@ -323,6 +351,7 @@ def cases(tier):
     cs.append(dict(name="step[getKeysFor]", fn=h_step_getkeys))
     cs.append(dict(name="step[handleEncMessage]", fn=h_step_receive))
     cs.append(dict(name="step[identity-change notification]", fn=h_step_identity_notification))
+    cs.append(dict(name="option-per-account[two stacks in one process]", fn=h_option_per_account, keep_samples=8))
     cs.append(dict(name="trust-decision[symbolic contacts and keys]", fn=h_trust_decision, timeout_s=300, keep_samples=12))
     return cs + extra
 
